@@ -99,8 +99,11 @@ theorem g_parseRegex (cx : Ctx) (st : St) : G ((parseRegex cx st).1 = none) st (
     · have hv := g_valid cx (st.withRest (regexLoop (st.rest.length + 1) [] st.rest).2) true (regexLoop (st.rest.length + 1) [] st.rest).1
       have hv' : ((st.withRest (regexLoop (st.rest.length + 1) [] st.rest).2).valid cx true (regexLoop (st.rest.length + 1) [] st.rest).1).2.errs.length = st.errs.length := by
         rw [hv]; rfl
-      exact ⟨by simp only [St.report, List.length_append, List.length_singleton, hv']; omega,
-             fun _ => by simp only [St.report, List.length_append, List.length_singleton, hv']; omega⟩
+      split
+      · exact ⟨by simp only [St.report, List.length_append, List.length_singleton, hv']; omega,
+               fun _ => by simp only [St.report, List.length_append, List.length_singleton, hv']; omega⟩
+      · exact ⟨by simp only [St.report, List.length_append, List.length_singleton, hv']; omega,
+               fun _ => by simp only [St.report, List.length_append, List.length_singleton, hv']; omega⟩
   · have := g_report (st.withRest (takeTill (· == ')') st.rest).2) .expectedCloseRegex (pos cx (st.withRest (takeTill (· == ')') st.rest).2)) 0
     exact ⟨this.1, fun _ => this.2 trivial⟩
 
